@@ -2,7 +2,7 @@
 
 use std::borrow::Borrow;
 use std::fmt;
-use support::elems::{Class, HKey, HVal, TKey, TVal};
+use support::elems::{Class, HKey, HVal, NdKey, NdVal, TKey, TVal, Z};
 
 pub trait KeyF: PartialEq + Eq + Sized + Clone + fmt::Debug + fmt::Display + Borrow<Self::Q> + 'static {
     /// borrowed form used for lookups
@@ -17,6 +17,14 @@ pub trait KeyF: PartialEq + Eq + Sized + Clone + fmt::Debug + fmt::Display + Bor
     /// address of the borrowed form (for address-range checks)
     fn dbg_render(class: u32, tag: u32) -> String;
     fn disp_render(class: u32, tag: u32) -> String;
+    /// the class a key made with `mk(class, _)` really has (zero-sized keys are all one class)
+    fn norm(class: u32) -> u32 {
+        class
+    }
+    /// per-object serial number where the type has one outside the ledger (defaults to the ledger id)
+    fn serial(&self) -> u64 {
+        self.id()
+    }
 }
 
 pub trait ValF: PartialEq + Sized + Clone + fmt::Debug + fmt::Display + Default + 'static {
@@ -28,6 +36,9 @@ pub trait ValF: PartialEq + Sized + Clone + fmt::Debug + fmt::Display + Default 
     fn dbg_render(payload: u32) -> String;
     fn disp_render(payload: u32) -> String;
     fn default_payload() -> u32;
+    fn serial(&self) -> u64 {
+        self.id()
+    }
 }
 
 pub trait Fam: 'static {
@@ -36,6 +47,14 @@ pub trait Fam: 'static {
     const NAME: &'static str;
     /// identity (ids, tags) observable and ledger active
     const TRACKED: bool;
+    /// (key clones, value clones) made so far, for families that count `Clone::clone` calls themselves
+    fn clone_counts() -> Option<(u64, u64)> {
+        None
+    }
+    /// number of live element objects, for families that count construction / destruction themselves
+    fn live_objects() -> Option<i64> {
+        None
+    }
 }
 
 // ---- tracked (and large) -------------------------------------------------------------------
@@ -297,4 +316,120 @@ impl Fam for Heap {
     type V = HVal;
     const NAME: &'static str = "heap";
     const TRACKED: bool = false;
+}
+
+// ---- zst: zero-sized key (all keys equal), for Set<Z, N> ------------------------------------------
+
+impl KeyF for Z {
+    type Q = Z;
+    fn mk(_class: u32, _tag: u32) -> Self {
+        Z::new()
+    }
+    fn class(&self) -> u32 {
+        1
+    }
+    fn tag(&self) -> u32 {
+        0
+    }
+    fn id(&self) -> u64 {
+        0
+    }
+    fn chk(&self, _: &'static str) -> bool {
+        true
+    }
+    fn with_q<R>(_class: u32, f: impl FnOnce(&Z) -> R) -> R {
+        let z = Z::new();
+        f(&z)
+    }
+    fn dbg_render(_: u32, _: u32) -> String {
+        "Z".to_string()
+    }
+    fn disp_render(_: u32, _: u32) -> String {
+        "z".to_string()
+    }
+    fn norm(_: u32) -> u32 {
+        1
+    }
+}
+pub struct Zst;
+impl Fam for Zst {
+    type K = Z;
+    type V = u32;
+    const NAME: &'static str = "zst";
+    const TRACKED: bool = false;
+    fn live_objects() -> Option<i64> {
+        Some(support::elems::z_live())
+    }
+}
+
+// ---- nodrop: no drop glue, observable Clone -----------------------------------------------------
+
+impl KeyF for NdKey {
+    type Q = Class;
+    fn mk(class: u32, tag: u32) -> Self {
+        NdKey::new(class, tag)
+    }
+    fn class(&self) -> u32 {
+        self.class
+    }
+    fn tag(&self) -> u32 {
+        self.tag
+    }
+    fn id(&self) -> u64 {
+        0
+    }
+    fn serial(&self) -> u64 {
+        self.serial
+    }
+    fn chk(&self, _: &'static str) -> bool {
+        true
+    }
+    fn with_q<R>(class: u32, f: impl FnOnce(&Class) -> R) -> R {
+        f(&Class(class))
+    }
+    fn dbg_render(class: u32, tag: u32) -> String {
+        format!("K{}#{}", class, tag)
+    }
+    fn disp_render(class: u32, tag: u32) -> String {
+        format!("k{}.{}", class, tag)
+    }
+}
+impl ValF for NdVal {
+    fn mk(payload: u32) -> Self {
+        NdVal::new(payload)
+    }
+    fn payload(&self) -> u32 {
+        self.payload
+    }
+    fn set_payload(&mut self, p: u32) {
+        self.payload = p;
+    }
+    fn id(&self) -> u64 {
+        0
+    }
+    fn serial(&self) -> u64 {
+        self.serial
+    }
+    fn chk(&self, _: &'static str) -> bool {
+        true
+    }
+    fn dbg_render(payload: u32) -> String {
+        format!("V{}", payload)
+    }
+    fn disp_render(payload: u32) -> String {
+        format!("v{}", payload)
+    }
+    fn default_payload() -> u32 {
+        0
+    }
+}
+pub struct NoDrop;
+impl Fam for NoDrop {
+    type K = NdKey;
+    type V = NdVal;
+    const NAME: &'static str = "nodrop";
+    const TRACKED: bool = false;
+    fn clone_counts() -> Option<(u64, u64)> {
+        Some(support::elems::nd_clone_counts())
+    }
 }
